@@ -371,6 +371,38 @@ def run_overload_scopes(res: Dict[str, Any]) -> None:
                         v['sig'] += '/' + sc.split()[0]
 
 
+FALLBACK_DEFAULTS = ["'\\n'.join", "'\\n'.join(H)", "f'Hello\\n{N}'", "f'{S}\\n'", "lambda: 'a long string with a newline\\n and more text following here'",
+                     "x == 'a long string with a newline\\n and more text following here'", "[f'{S}\\n{S}', 1]", "(f'x\\n{y}', 2)", "g(f'x\\n{y}')", "'a\\nb' if c else d", "[c for c in 'a\\nb']",
+                     "'\\n'.join(str(i) for i in range(3))", "f'{a}' f'\\n{b}'"]
+
+
+def run_fallback_defaults(res: Dict[str, Any]) -> None:
+    """defaults displayed through the source-code fallback whose text holds a line break: shown whole and meaning the same, or cut AND marked as cut"""
+    from pydoctor.templatewriter.pages import format_signature
+    from pydoctor.stanutils import flatten
+    rows = []
+    for d in FALLBACK_DEFAULTS:
+        rows.append((d, f'p={d}'))
+        rows.append((d, f'a, *, q: int = {d}'))
+        rows.append((d, f'p={d}, r=1'))
+    src = '\n'.join(f'def f{i}({t}): pass' for i, (_, t) in enumerate(rows)) + '\n'
+    s = pd.build_mem([pd.Mod('m', src)])
+    for i, (d, t) in enumerate(rows):
+        res['evals'] += 1
+        res['nontrivial_count'] += 1
+        stan = format_signature(s.allobjects[f'm.f{i}'])
+        html = flatten(stan)
+        text = text_of(stan)
+        case = {'kind': 'fallback-default', 'default': d, 'sig': t}
+        marked = 'variable-ellipsis' in html
+        if marked:
+            continue        # cut and visibly marked: accepted by the statement
+        before = len(res['violations'])
+        compare(t, '', text, 'fallback-defaults', case, res)
+        for v in res['violations'][before:]:
+            v['sig'] += '/unmarked'
+
+
 def run_exprs(di: int, res: Dict[str, Any]) -> None:
     from pydoctor.templatewriter.pages import format_signature
     d = DEFAULTS[di]
@@ -474,6 +506,7 @@ def jobs(tier: str) -> Iterable[Tuple[str, Any]]:
         yield ('depth2-exprs', ('depth2', pi))
     yield ('overload-decorator-stacks', ('ovstacks',))
     yield ('overloads-same-name-in-several-scopes', ('ovscopes',))
+    yield ('defaults-through-source-fallback', ('fallback',))
     for ai in range(len(ANNOTS)):
         yield ('annotation-pairs', ('annpairs', ai))
     if tier == 'thorough':
@@ -520,6 +553,8 @@ def run_job(job: Any, tier: str) -> Dict[str, Any]:
         run_overload_stacks(res)
     elif job[0] == 'ovscopes':
         run_overload_scopes(res)
+    elif job[0] == 'fallback':
+        run_fallback_defaults(res)
     elif job[0] == 'annpairs':
         run_annotation_pairs(job[1], res)
     return res
@@ -529,6 +564,9 @@ def replay(case: Dict[str, Any]) -> List[Dict[str, Any]]:
     res = core.result()
     if case['kind'] == 'ovstack':
         run_overload_stacks(res)
+        return [v for v in res['violations'] if v['case'] == case]
+    if case['kind'] == 'fallback-default':
+        run_fallback_defaults(res)
         return [v for v in res['violations'] if v['case'] == case]
     if case['kind'] == 'ovscopes':
         run_overload_scopes(res)
